@@ -193,6 +193,31 @@ example (p : ℕ → ℝ) : ((KLObj.init (some 9) (some 4) (klCoef 2) 12).run [.
   (kl_chain_lossless_after_history (some 9) (some 4) (klCoef 2) 12 (by norm_num) [.coefs, .setGrid (some 3)] 3 (by norm_num)
     (klCoef_ne_zero 2) p [.funvals, .vector, .parameters, .funvals] rfl).1
 
+/-- **Batches through a used / re-gridded `KLExpansion` are column-wise** (object level): after any history,
+    if the object accepts a batch `(m, ns)` of parameter vectors (`m` the current `num_modes`), it accepts
+    column `k` alone and entry `r` of column `k` of the batch result (before `idst`, which scipy applies per
+    column) is entry `r` of the single-column result. -/
+theorem kl_batch_columnwise_after_history (g nm : Option ℕ) (law : ℕ → ℚ) (τ : ℚ) (ops : List KLOp)
+    (ns k : ℕ) (hk : k < ns) (x y : Arr) :
+    let o := (KLObj.init g nm law τ).run ops
+    x.shape = [o.m, ns] → (o.par2funPre x).1 = some y →
+    ∃ yk, (o.par2funPre (x.col ns k)).1 = some yk ∧ ∀ r, (y.col ns k).get r = yk.get r := by
+  intro o hx hy
+  obtain ⟨_, hp⟩ := run_spec ops (KLObj.init g nm law τ) (init_coherent g nm law τ)
+  have hm : o.m = klNumModes nm (o.grid.getD 0) := by unfold KLObj.m; rw [hp.1]; rfl
+  have e1 := kl_par2fun_after_history g nm law τ ops x
+  have e2 := kl_par2fun_after_history g nm law τ ops (x.col ns k)
+  simp only at e1 e2
+  rw [e1] at hy
+  rw [e2]
+  have hm0 : klNumModes nm (o.grid.getD 0) ≠ 0 := by
+    intro h0
+    rw [← hm] at hy
+    simp [klPre, batchOf, hx, ← hm, hm.trans h0] at hy
+  exact (kl_batch_columnwise law τ (o.grid.getD 0) _ ns hm0 k hk).1 x y (by rw [← hm]; exact hx) hy
+
+example : ((KLObj.init (some 9) (some 2) (klCoef 1) 1).run [.coefs, .setGrid (some 3)]).m = 2 := by decide +kernel
+
 /-! ## StepExpansion -/
 
 /-- **`_indices` is never refreshed.**  After ANY sequence of grid re-assignments through the public
